@@ -65,7 +65,7 @@ Configs(L) ==
   {[route |-> "vtu", steps |-> <<OneStep>>, frac |-> FALSE, via |-> v] : v \in Vias(L)}
   \cup (IF Total(L) <= fam.small
         THEN {[route |-> "vtu", steps |-> <<OneStep>>, frac |-> f, via |-> v] : f \in fam.fracs, v \in Vias(L)}
-             \cup {[route |-> "mdgpvd", steps |-> <<OneStep>>, frac |-> f, via |-> OneVia(L)] : f \in fam.fracs}
+             \cup {[route |-> "mdgpvd", steps |-> s, frac |-> f, via |-> OneVia(L)] : s \in {<<OneStep>>} \cup StepLists, f \in fam.fracs}
              \cup {[route |-> "pvd", steps |-> s, frac |-> f, via |-> OneVia(L)] : s \in StepLists, f \in fam.fracs}
         ELSE {})
 Finish == /\ stage = "build" /\ layout[Len(layout)] # <<>>
